@@ -204,8 +204,8 @@ func runC20(c *Ctx) {
 		c.AddE1(res, true)
 		return out
 	}
-	srvMk := c.P.Method("service", "GoJT808", "createDefaultHandle")
-	termMk := c.P.Func("terminal", "defaultProtocolHandles")
+	srvMk := c.NamedFunc("service", "createDefaultHandle")
+	termMk := c.NamedFunc("terminal", "defaultProtocolHandles")
 	if srvMk == nil || termMk == nil {
 		R.Fatal("anchors createDefaultHandle / defaultProtocolHandles not found")
 		return
